@@ -179,6 +179,17 @@ func (v *FnVC) encodeCall(ins ssa.Instruction, c *ssa.CallCommon, res ssa.Value)
 			}
 		}
 	}
+	if !c.IsInvoke() && fn != nil && closure == nil {
+		// caller-specialised contract of a static call that takes a callback: "<enclosing function>#<Callee name>$call"
+		// (what this caller may assume about the call given the closure it passes; assumed, listed)
+		for f := v.Fn; f != nil; f = f.Parent() {
+			n := fmt.Sprintf("%s#%s$call", f.String(), fn.Name())
+			if sc := v.W.ContractFor(n); sc != nil {
+				contract, name = sc, n
+				break
+			}
+		}
+	}
 	// Interior pointers (address of a struct field, of a slice element, of a non-escaping local) passed to the
 	// callee: the callee sees an object at that address. Materialise the current value there before the call
 	// and copy it back afterwards, so that the callee's contract speaks about the caller's storage.
@@ -389,6 +400,12 @@ func (v *FnVC) havocLoc(x Expr, env *Env, st *State) {
 		if p, ok := env.vars["&"+e.Name]; ok {
 			v.havocPointee(p, st)
 			return
+		}
+		if _, bound := env.vars[e.Name]; !bound {
+			if p, ok := v.addrOfLocal(e.Name); ok { // an address-taken local of the caller (caller-specialised contracts)
+				v.havocPointee(p, st)
+				return
+			}
 		}
 		if g := v.W.GhostVar(e.Name); g != nil {
 			_, so := v.sortOfSpecType(g.Sort, env.pkg)
